@@ -85,7 +85,7 @@ pub fn run(tier: Tier, seed: u64) -> i32 {
     let salt0 = refmodel::ctr_array::<32>(seed, "c14-salt");
     verifiers.push(srp::verifier(b"ALICE", b"PASSWORD123", &salt0, 7, &n).to_le_padded::<32>());
     verifiers.retain(|v| !U::from_le_bytes(v).rem(&n).is_zero());
-    let b_alpha: Vec<[u8; 32]> = if full { private_keys(seed, true) } else { vec![le32_from_u64(1), le32_from_u64(2), n_plus(-1), [0xFF; 32], refmodel::ctr_array::<32>(seed, "c14-b")] };
+    let b_alpha: Vec<[u8; 32]> = if full { private_keys(seed, true) } else { vec![le32_from_u64(1), le32_from_u64(2), n_plus(-1), [0xFF; 32], ordinary_key(seed, "c14-b")] };
     let jobs: Vec<(usize, usize)> = (0..verifiers.len()).flat_map(|v| (0..b_alpha.len()).map(move |b| (v, b))).collect();
     jobs.par_iter().for_each(|&(vi, bi)| {
         let v = verifiers[vi];
@@ -184,7 +184,7 @@ pub fn run(tier: Tier, seed: u64) -> i32 {
     // a long run of rejected reconnect attempts on one session (then an accepted one, then more): any
     // narrow attempt counter overflows here
     {
-        let inp = LoginInput { reg_user: "alice", reg_pass: "password123", typed_user: "alice", typed_pass: "password123", salt: salt0, b: refmodel::ctr_array::<32>(seed, "c14-lb"), a: refmodel::ctr_array::<32>(seed, "c14-la"), storage_roundtrip: false };
+        let inp = LoginInput { reg_user: "alice", reg_pass: "password123", typed_user: "alice", typed_pass: "password123", salt: salt0, b: ordinary_key(seed, "c14-lb"), a: ordinary_key(seed, "c14-la"), storage_roundtrip: false };
         match real_login(&inp) {
             Ok((rl, mut server, client)) => {
                 let total = tier.pick(66_000u32, 200_000u32);
@@ -209,6 +209,7 @@ pub fn run(tier: Tier, seed: u64) -> i32 {
                     Err(m) => viol(&report, "server", "reconnect-panic-after-many-attempts", json!({"attempts": total}), format!("verify_reconnection_attempt panicked during a run of {total} rejected attempts: {m}")),
                 }
             }
+            Err(LoginFail::Redrawn) => report.count("long_run_skipped_library_draws_again", 1),
             Err(e) => viol(&report, "server", "honest-login-fails", json!({}), format!("{e:?}")),
         }
     }
@@ -219,7 +220,7 @@ pub fn run(tier: Tier, seed: u64) -> i32 {
     let s_zero_cases = AtomicU64::new(0);
     let cred_alpha: Vec<(&str, &str)> = if full { vec![("A", "A"), ("alice", "password123"), ("0123456789abcdef", "x")] } else { vec![("alice", "password123")] };
     let salt_alpha: Vec<[u8; 32]> = if full { salts(seed, true) } else { vec![[0u8; 32], refmodel::ctr_array::<32>(seed, "c14-cs")] };
-    let a_alpha: Vec<[u8; 32]> = if full { private_keys(seed, true) } else { vec![le32_from_u64(1), le32_from_u64(2), n_plus(-1), [0xFF; 32], refmodel::ctr_array::<32>(seed, "c14-a")] };
+    let a_alpha: Vec<[u8; 32]> = if full { private_keys(seed, true) } else { vec![le32_from_u64(1), le32_from_u64(2), n_plus(-1), [0xFF; 32], ordinary_key(seed, "c14-a")] };
     let (nc, nsalt, na) = (cred_alpha.len(), salt_alpha.len(), a_alpha.len());
     let cjobs: Vec<(usize, usize, usize)> = (0..nc).flat_map(|c| (0..nsalt).flat_map(move |s| (0..na).map(move |a| (c, s, a)))).collect();
     cjobs.par_iter().for_each(|&(ci, si, ai)| {
